@@ -189,6 +189,47 @@ func rulesC17(c *Ctx) {
 				pageVar = pl.ObjOf(call.Args[1])
 			}
 		}
+		// every page handed to the result setter is collected from the sequence the cursor selected (all() without a cursor,
+		// above(cursor) with one): no other source — a "the whole set fits one page" shortcut answers a cursor with page 1
+		{
+			nSet := 0
+			for _, call := range pl.AllCalls(pl.Body, false) {
+				if pl.ObjOf(call.Fun) != types.Object(setFunc) || len(call.Args) != 2 {
+					continue
+				}
+				nSet++
+				pv := pl.ObjOf(call.Args[1])
+				okSrc := pv != nil
+				for _, w := range Writes(pl.Body, false) {
+					if pv == nil || pl.ObjOf(w.LHS) != pv || w.RHS == nil {
+						continue
+					}
+					// features = append(features, f) inside `for f := range seq`, or a reslice of itself
+					fromLoop := false
+					if ce, ok := ast.Unparen(w.RHS).(*ast.CallExpr); ok && pl.BuiltinName(ce) == "append" && len(ce.Args) == 2 && pl.ObjOf(ce.Args[0]) == pv {
+						if rs, ok := pl.Enclosing(w.Stmt, func(n ast.Node) bool { _, ok := n.(*ast.RangeStmt); return ok }).(*ast.RangeStmt); ok {
+							if rs.Value == nil && rs.Key != nil && pl.ObjOf(rs.Key) == pl.ObjOf(ce.Args[1]) {
+								fromLoop = true
+							}
+							if rs.Value != nil && pl.ObjOf(rs.Value) == pl.ObjOf(ce.Args[1]) {
+								fromLoop = true
+							}
+						}
+					}
+					if sl, ok := ast.Unparen(w.RHS).(*ast.SliceExpr); ok && pl.ObjOf(sl.X) == pv {
+						fromLoop = true
+					}
+					if !fromLoop {
+						okSrc = false
+					}
+				}
+				if _, isID := ast.Unparen(call.Args[1]).(*ast.Ident); !isID {
+					okSrc = false
+				}
+				c.Check(okSrc, "paginateList:page-from-the-selected-sequence#"+itoa(nSet), pl, call, "the page given to the result is what the loop over the cursor-selected sequence collected (got %s)", exprStr(call.Args[1]))
+			}
+			c.Pin("result setter calls in paginateList", nSet, 1)
+		}
 		c.Need(countVar != nil && pageVar != nil, "paginateList: counter and page variables")
 		// break at count == pageSize+1 before the append
 		okBreak, okNoMore := false, false
